@@ -1,4 +1,5 @@
 import Toodee.Spec.Cells
+import Toodee.Spec.Grid
 import Toodee.Impl.Recv
 /-
   Spec layer: the cell functions the properties prescribe for each in-place operation (used as `gather buf (v.mapCells g)` /
@@ -60,6 +61,69 @@ def MOp.Sane : MOp α → Prop
 def MOp.srcOk : MOp α → Prop
   | .copyFromTooDee src => src.arr.Inv
   | _ => True
+
+
+/-! ### the specification of every mutating operation, on a receiver of any shape -/
+
+/-- cell `(c,r)` of a grid -/
+def gcell (g : List (List α)) (c r : Nat) : Option α := (g[r]?).bind (·[c]?)
+
+/-- number of columns of a grid -/
+def gcols (g : List (List α)) : Nat := (g.head?.map List.length).getD 0
+
+/-- the grid of the same shape whose cell `(c,r)` is `f c r` -/
+def gridOf (C R : Nat) (f : Nat → Nat → Option α) : List (List α) :=
+  (List.range R).map fun r => (List.range C).filterMap fun c => f c r
+
+/-- the cells the source of `copy_from_toodee` shows, as rows; `none` = constructing the source view panics -/
+def CopySrc.grid? (s : CopySrc α) : Option (List (List α)) :=
+  match s.window with
+  | none => some s.arr.grid
+  | some (tl, br) =>
+    if tl.1 ≤ br.1 ∧ tl.2 ≤ br.2 ∧ br.1 ≤ s.arr.numCols ∧ br.2 ≤ s.arr.numRows then
+      let sz := viewSize tl br
+      some (gridOf sz.1 sz.2 fun c r => gcell s.arr.grid (tl.1 + c) (tl.2 + r))
+    else none
+
+/-- **What each mutating operation must do**, called on a receiver whose cells are the window `v` of the root buffer `buf`
+    (an owned array is the window `t.asView` of its own buffer): `.error .panic` = the call is rejected (or caller code panicked
+    inside a sort) and nothing is written; `.ok buf'` = the new root buffer, given in the two cell-wise forms of Spec/Cells.lean
+    (so positions outside `v` are untouched by construction).  `lim` = the largest side table a sort may allocate. -/
+def MOp.spec (v : VW) (lim : Nat) (buf : List α) : MOp α → Res (List α)
+  | .set c r x | .setInRow r c x =>
+    if c < v.numCols ∧ r < v.numRows then pure (v.updCells buf fun cr => if cr = (c, r) then some x else none) else throw .panic
+  | .fill x => pure (v.updCells buf fun _ => some x)
+  | .swap c1 r1 c2 r2 =>
+    if c1 < v.numCols ∧ c2 < v.numCols ∧ r1 < v.numRows ∧ r2 < v.numRows then
+      pure (gather buf (v.mapCells (swapCellG (c1, r1) (c2, r2))))
+    else throw .panic
+  | .swapRows r1 r2 =>
+    if r1 < v.numRows ∧ r2 < v.numRows then pure (gather buf (v.mapCells (swapRowsG r1 r2))) else throw .panic
+  | .swapCols c1 c2 =>
+    if c1 < v.numCols ∧ c2 < v.numCols then pure (gather buf (v.mapCells (swapColsG c1 c2))) else throw .panic
+  | .copyFromSlice src =>
+    if v.numCols * v.numRows = src.length then pure (v.updCells buf fun cr => src[cr.2 * v.numCols + cr.1]?) else throw .panic
+  | .copyFromTooDee src =>
+    match src.grid? with
+    | some sg =>
+      if sg.length = v.numRows ∧ gcols sg = v.numCols then pure (v.updCells buf fun cr => gcell sg cr.1 cr.2) else throw .panic
+    | none => throw .panic
+  | .copyWithin tl br dest =>
+    if rectsFit v.numCols v.numRows tl br dest then pure (v.updCells buf (copyWithinCells v buf tl br dest)) else throw .panic
+  | .translate mc mr =>
+    if mc ≤ v.numCols ∧ mr ≤ v.numRows then pure (gather buf (v.mapCells (translateG v.numCols v.numRows mc mr))) else throw .panic
+  | .flipRows => pure (gather buf (v.mapCells (flipRowsG v.numRows)))
+  | .flipCols => pure (gather buf (v.mapCells (flipColsG v.numCols)))
+  | .sortRow side row =>
+    if row < v.numRows ∧ v.numCols ≤ lim then do
+      let p ← side (readWin buf (v.rowWin row))
+      pure (gather buf (v.mapCells (sortColsG p)))
+    else throw .panic
+  | .sortCol side c =>
+    if c < v.numCols ∧ v.numRows ≤ lim then do
+      let p ← side ((List.range v.numRows).filterMap fun r => buf[v.pos c r]?)
+      pure (gather buf (v.mapCells (sortRowsG p)))
+    else throw .panic
 
 /-- the acceptance condition of every constructor, as a Bool (used by the oracle) -/
 def specShapeOk (c r : Nat) : Bool := decide ((c = 0 ↔ r = 0) ∧ c * r < WORD)
